@@ -9,6 +9,7 @@ import (
 	"regexp"
 	"strings"
 	"sync/atomic"
+	"syscall"
 	"testing"
 	"time"
 	"unicode/utf8"
@@ -35,24 +36,37 @@ var c16Extra = []string{"\t", "\u00a0", "\u2003", "\u0085", "'", "`"}
 
 var c16Progress atomic.Int64
 
+// c16CPU is the CPU time this process has used so far. The watchdog measures a hang in CPU time, not in wall-clock
+// time: on a loaded machine a starved process makes no progress for a long time without being stuck in a parser.
+func c16CPU() time.Duration {
+	var ru syscall.Rusage
+	if err := syscall.Getrusage(syscall.RUSAGE_SELF, &ru); err != nil {
+		return 0
+	}
+	return time.Duration(ru.Utime.Nano() + ru.Stime.Nano())
+}
+
 func c16Watchdog(t *testing.T, cur *atomic.Value) func() {
 	stop := make(chan struct{})
 	go func() {
-		last := c16Progress.Load()
+		last, since := c16Progress.Load(), c16CPU()
 		for {
 			select {
 			case <-stop:
 				return
-			case <-time.After(20 * time.Second):
+			case <-time.After(5 * time.Second):
 				now := c16Progress.Load()
-				if now == last {
+				if now != last {
+					last, since = now, c16CPU()
+					continue
+				}
+				if spent := c16CPU() - since; spent > 60*time.Second {
 					fmt.Fprintf(os.Stderr, "C16 HANG on input %q\n", cur.Load())
 					R := rep.New("C16", "raw")
-					R.Violate("parser-hangs", fmt.Sprintf("no progress for 20s on input %q", cur.Load()), map[string]any{"part": "raw", "input": cur.Load()})
+					R.Violate("parser-hangs", fmt.Sprintf("no progress during %v of CPU time on input %q", spent, cur.Load()), map[string]any{"part": "raw", "input": cur.Load()})
 					R.Write()
 					os.Exit(3)
 				}
-				last = now
 			}
 		}
 	}()
@@ -188,8 +202,8 @@ func c16RoundTrip(t labels.MatchType, name, value string, fb1 ParseMatcher, fbN 
 	// as a one-element list
 	ls := labels.Matchers{m}.String()
 	for _, md := range []struct {
-		n string
-		f func(string) (labels.Matchers, error)
+		n  string
+		f  func(string) (labels.Matchers, error)
 		on bool
 	}{
 		{"utf8", parse.Matchers, true},
@@ -371,6 +385,7 @@ func TestVerifC16(t *testing.T) {
 					}
 					R.Executions++
 					R.Transitions += 3
+					c16Progress.Add(1)
 					cN := safeN(func(x string) (labels.Matchers, error) { r, e := labels.ParseMatchers(x); return labels.Matchers(r), e }, str)
 					uN := safeN(parse.Matchers, str)
 					for _, side := range []struct {
@@ -475,7 +490,9 @@ func TestVerifC16(t *testing.T) {
 			for _, a := range small {
 				for _, b := range small {
 					R.Executions++
+					c16Progress.Add(1)
 					ls := labels.Matchers{a, b}.String()
+					cur.Store(ls)
 					for _, md := range []func(string) (labels.Matchers, error){parse.Matchers, func(x string) (labels.Matchers, error) { return fbN(x, "verif") }} {
 						r := safeN(md, ls)
 						if r.pan != nil || r.err != nil || len(r.ms) != 2 || !sameMatcher(r.ms[0], a.Type, a.Name, a.Value) || !sameMatcher(r.ms[1], b.Type, b.Name, b.Value) {
@@ -523,6 +540,7 @@ func TestVerifC16(t *testing.T) {
 		}
 		for _, m1 := range ms {
 			for _, m2 := range ms {
+				c16Progress.Add(1)
 				for _, ls := range sets {
 					R.Executions++
 					lset := model.LabelSet{}
@@ -556,6 +574,8 @@ func TestVerifC16(t *testing.T) {
 		words([]string{"1", "2", "\n", "$", "a"}, 3, func(v string) bool { rvals = append(rvals, v); return true })
 		npat := 0
 		words(ralpha, L, func(p string) bool {
+			c16Progress.Add(1)
+			cur.Store("regex " + p)
 			ref, err := regexp.Compile("^(?:" + p + ")$")
 			mr, err1 := labels.NewMatcher(labels.MatchRegexp, "a", p)
 			mn, err2 := labels.NewMatcher(labels.MatchNotRegexp, "a", p)
